@@ -173,6 +173,14 @@ func complete(line string) string {
 			return strings.Join([]string{w[0], w[1], w[2], w[3], hx.Hex(hm), pairOracle(pkb, msg, sigb, w[0] == "verify-raw")}, " ")
 		}
 	}
+	if len(w) >= 5 && w[0] == "vrep" {
+		pkb, ok1 := unhex(w[1])
+		msg, ok2 := unhex(w[2])
+		sigb, ok3 := unhex(w[3])
+		if ok1 && ok2 && ok3 {
+			return strings.Join([]string{w[0], w[1], w[2], w[3], w[4], hx.Hex(refG1(msg).Marshal()), pairOracle(pkb, msg, sigb, false)}, " ")
+		}
+	}
 	if len(w) >= 3 && w[0] == "sign" {
 		if msg, ok := unhex(w[2]); ok {
 			return strings.Join([]string{w[0], w[1], w[2], hx.Hex(refG1(msg).Marshal())}, " ")
@@ -261,6 +269,28 @@ func exec(line string) string {
 			return "accept"
 		}
 		return "reject"
+	case w[0] == "vrep" && len(w) == 7:
+		// ONE Signature object and ONE Pubkey object, verified n times; then their bytes again
+		pkb, ok1 := unhex(w[1])
+		msg, ok2 := unhex(w[2])
+		sigb, ok3 := unhex(w[3])
+		n, ok4 := bigDec(w[4])
+		if !ok1 || !ok2 || !ok3 || !ok4 || n.Int64() < 1 || n.Int64() > 16 {
+			return "bad-op"
+		}
+		pk := groupsig.ByteToPublicKey(pkb)
+		sig := groupsig.DeserializeSign(sigb)
+		s0, p0 := sig.Serialize(), pk.Serialize()
+		var out []string
+		for i := int64(0); i < n.Int64(); i++ {
+			if groupsig.VerifySig(pk, msg, *sig) {
+				out = append(out, "accept")
+			} else {
+				out = append(out, "reject")
+			}
+		}
+		same := bytes.Equal(s0, sig.Serialize()) && bytes.Equal(p0, pk.Serialize())
+		return strings.Join(out, ",") + " unchanged=" + b01(same)
 	case w[0] == "g1neg" && len(w) == 2:
 		a, ok := ptOf(w[1])
 		if !ok {
@@ -899,6 +929,12 @@ func runCorr(a map[string]string) {
 			}
 			do(op + hx.Hex(k.b) + " " + hx.Hex(msg) + " " + hx.Hex(s.b))
 		}
+		// object re-use: the same Signature / Pubkey objects verified repeatedly
+		for _, c := range []int{0, 1, 8, 19, 20} {
+			if c < len(sigs) {
+				do("vrep " + hx.Hex(pks[0].b) + " " + hx.Hex(msg) + " " + hx.Hex(sigs[c].b) + " " + fmt.Sprint(2+i%3))
+			}
+		}
 		// receiver re-use
 		for j := 0; j < 4; j++ {
 			s1 := sigs[r.Intn(len(sigs))]
@@ -1100,6 +1136,16 @@ func main() {
 	switch a["mode"] {
 	case "search":
 		runSearch(a)
+	case "conc":
+		// concurrency phase alone (used with a -race build in the thorough tier)
+		g := &gen{r: hx.NewRng(hx.SeedFromEnv() ^ 0xc0c), class: map[string]int{}}
+		n := 0
+		_, res := runConcurrent(g, hx.ArgInt(a, "workers", 8), hx.ArgInt(a, "perworker", 3), hx.ArgInt(a, "loops", 2), func(v viol) {
+			n++
+			fmt.Println("CONC-VIOLATION " + v.Key + " " + v.Desc)
+		})
+		js, _ := json.Marshal(res)
+		fmt.Println("STATS " + string(js))
 	case "exec":
 		// several op lines separated by " ; " run in ONE process, in order (stateful replays)
 		for _, one := range strings.Split(a["line"], ";") {
